@@ -237,6 +237,29 @@ class Machine:
         if r == z3.unknown: raise Inconclusive('solver unknown: %s' % self.solver.reason_unknown())
         return r == z3.sat
     def model(self): return self.solver.model()
+    def second_opinion(self, extra, z3_sat):
+        """cross-check one query with cvc5 (DESIGN §3.7): the path condition and `extra` are printed as SMT-LIB2 and decided by the cvc5 binary.
+        returns 'agree' | 'disagree' | 'unsupported' (z3-only constructs such as pseudo-boolean constraints, timeouts, parse errors)"""
+        import subprocess, tempfile, os
+        s2 = z3.Solver()
+        for c in self.pc: s2.add(c)
+        for e in extra: s2.add(e)
+        txt = s2.to_smt2()
+        if 'pbeq' in txt or 'pble' in txt or 'pbge' in txt or 'at-most' in txt or 'at-least' in txt: return 'unsupported'
+        txt = '(set-logic ALL)\n' + txt.replace('(set-info :status unknown)', '').replace('ubv_to_int', 'bv2nat')
+        try:
+            with tempfile.NamedTemporaryFile('w', suffix='.smt2', delete=False) as f: f.write(txt); path = f.name
+            p = subprocess.run(['cvc5', '--lang', 'smt2', '--strings-exp', '--tlimit=10000', path], stdout=subprocess.PIPE, stderr=subprocess.PIPE, timeout=15)
+            out = p.stdout.decode().strip().splitlines()
+        except Exception:
+            return 'unsupported'
+        finally:
+            try: os.remove(path)
+            except Exception: pass
+        if not out or out[0] not in ('sat', 'unsat'):
+            if os.environ.get('RSYM_DEBUG_CVC5'): open('/tmp/cvc5_fail.smt2', 'w').write(txt + '\n; ' + ' | '.join(out) + ' | ' + p.stderr.decode()[:500])
+            return 'unsupported'
+        return 'agree' if (out[0] == 'sat') == z3_sat else 'disagree'
     def assume(self, cond):
         """add a precondition to the path condition (no fork); Infeasible if it contradicts the path"""
         if isinstance(cond, bool):
